@@ -572,6 +572,7 @@ func cmdRun(prop string, args []string) int {
 			}
 			defer w.stop()
 			special := len(w.env) > len(meta.Env) // race / unprivileged worker
+			jobsDone := 0
 			for {
 				mu.Lock()
 				if stop || next >= tc.Runs || time.Now().After(deadline) {
@@ -591,6 +592,10 @@ func cmdRun(prop string, args []string) int {
 				if idx < len(corpus) {
 					job.Scenario = corpus[idx]
 				}
+				if meta.MaxJobsPerWorker > 0 && jobsDone > 0 && jobsDone%meta.MaxJobsPerWorker == 0 {
+					w.stop() // fresh process (e.g. landlock layers accumulate per daemon start)
+				}
+				jobsDone++
 				res, crashed := w.run(job, tc.JobTimeout)
 				if crashed {
 					cleanupScratch(filepath.Join(w.scratch, "run"))
